@@ -23,7 +23,15 @@ hypothesis is needed for C12.
 GetPath has two collection strategies: the keys one after the other from the root (`markAll`), or — for more than
 `pathParallelThreshold` keys (a constant extracted from the Go source into Verif.Gen.Constants) on a branch root — one
 walk per key started at the root's child, the root marked separately (`markParallel`; Go runs these walks in goroutines,
-the model in list order). Both are modelled, `getPath` chooses like the Go code, and
+serialised per child by a mutex, in scheduler order; the model in list order). Both are modelled, `getPath` chooses like
+the Go code, and
+
+  parallel_order_irrelevant     on a branch root that represents a spec trie (the source tries of `export_import`) the walks
+                  of the parallel strategy succeed in EVERY order and every order yields the same marked trie: whatever
+                  serialisation the scheduler picks, the export is the one of the model's list order
+                  (`parallel_order_irrelevant_general`: for any trie, provided each walk alone succeeds;
+                  `parallel_order_needs_each`: success in one order alone does not suffice in the MODEL, whose walks run
+                  on a fuel budget that a chain of references in an adversarial storage can exhaust in one order only)
 
   mark_parallel_eq_sequential   on a branch root the two strategies report the same error and, when marking succeeds, leave
                   the same marked trie
@@ -32,6 +40,7 @@ the model in list order). Both are modelled, `getPath` chooses like the Go code,
                   are statements about `getPath` itself and hold for every number of keys
 -/
 import Verif.Lemmas.WmptExport
+import Verif.Lemmas.WmptMarkPerm
 import Verif.Model.WmptHistory
 import Verif.Model.WmptToy
 namespace Verif.Props.C12
@@ -88,6 +97,37 @@ theorem parallel_walks_commute (hasDb : Bool) (s : Store) (ch : Nib → WN) (k1 
     (h2 : (markToCollect hasDb s (fuelFor (k2 :: ks2) - 1) (ch k2) ks2).err = none) :
     markKids hasDb s ch ((k1 :: ks1) :: (k2 :: ks2) :: rest) = markKids hasDb s ch ((k2 :: ks2) :: (k1 :: ks1) :: rest) :=
   markKids_comm hasDb s ch k1 k2 ks1 ks2 rest hne h1 h2
+
+/-- every order of the walks of the parallel strategy — every serialisation the goroutine scheduler can pick — succeeds
+    and yields the same marked trie, below a branch root that represents a spec trie with keys of one length -/
+theorem parallel_order_irrelevant (H : Bytes → Bytes) (hlen : ∀ x, (H x).length = 32) (s : Store) {h : Bytes}
+    {ch : Nib → WN} {w : Nat} {d tc : Bool} {t : PT} {m : Nat}
+    (hrep : RepS H s (.routing h ch w d tc) t) (hp : Proper (.routing h ch w d tc))
+    (hne : NoEmp (.routing h ch w d tc)) (hu : Uniform m t) (hok : PTOK t)
+    (keys1 keys2 : List (List Nib)) (hperm : keys1.Perm keys2) (hk : ∀ key ∈ keys1, key.length = m) :
+    markParallel true s (.routing h ch w d tc) keys2 = markParallel true s (.routing h ch w d tc) keys1 ∧
+      (markParallel true s (.routing h ch w d tc) keys1).err = none :=
+  markParallel_perm_rep hlen hrep hp hne hu hok keys1 keys2 hperm hk
+
+/-- …for any trie and storage, provided the walk of every key alone succeeds -/
+theorem parallel_order_irrelevant_general (hasDb : Bool) (s : Store) (h : Bytes) (ch : Nib → WN) (w : Nat) (d tc : Bool)
+    (keys1 keys2 : List (List Nib)) (hp : keys1.Perm keys2) (he : ∀ key ∈ keys1, KidOK hasDb s ch key) :
+    markParallel hasDb s (.routing h ch w d tc) keys2 = markParallel hasDb s (.routing h ch w d tc) keys1 ∧
+      (markParallel hasDb s (.routing h ch w d tc) keys1).err = none :=
+  markParallel_perm hasDb s h ch w d tc keys1 keys2 hp he
+
+/-- the sequential strategy is order-independent in the same sense, for every root -/
+theorem sequential_order_irrelevant (hasDb : Bool) (s : Store) (n : WN) (keys1 keys2 : List (List Nib))
+    (hp : keys1.Perm keys2) (he : ∀ key ∈ keys1, (markToCollect hasDb s (fuelFor key) n key).err = none) :
+    markAll hasDb s n keys2 = markAll hasDb s n keys1 ∧ (markAll hasDb s n keys1).err = none :=
+  markAll_perm hasDb s n keys1 keys2 hp he
+
+/-- success of the walks in ONE order does not imply success in another order in the model (fuel; a storage holding a
+    chain of twelve references) — hence the "each walk alone succeeds" hypothesis above -/
+theorem parallel_order_needs_each :
+    ¬ ∀ (hasDb : Bool) (s : Store) (ch : Nib → WN) (keys1 keys2 : List (List Nib)), keys1.Perm keys2 →
+      (markKids hasDb s ch keys1).2 = none → markKids hasDb s ch keys2 = markKids hasDb s ch keys1 :=
+  markKids_perm_needs_each
 
 /-- export / import: same root hash and weight, requested paths free of references, source intact -/
 theorem export_import (H : Bytes → Bytes) (hlen : ∀ x, (H x).length = 32) (t : WT) (ts : PT) (keys : List (List Nib))
